@@ -162,8 +162,33 @@ class Batch:
         self.meta.append(meta)
         self.ctx.append(ctx)
 
-    def run(self, name):
-        return coqcases.run_cases(name, 'Graph Reactor', self.cases, extra='\n'.join(self.defs))
+    def run(self, name, chunk=150):
+        """every shard is a Coq file of its own holding only the definitions its cases refer to (shards of ~100-200 KB)"""
+        import concurrent.futures as cf
+        import re
+        head = self.defs[:2]
+        by_name = {n: d for d, n in zip(self.defs[2:], self.names.values())}
+        chunks = [list(range(i, min(i + chunk, len(self.cases)))) for i in range(0, len(self.cases), chunk)]
+
+        def one(k):
+            idx = chunks[k]
+            used = []
+            seen = set()
+            for i in idx:
+                for tok in re.findall(r'\b[gmt]\d+\b', self.cases[i]):
+                    if tok in by_name and tok not in seen:
+                        seen.add(tok)
+                        used.append(by_name[tok])
+            ok, failing, log = coqcases.run_cases(f'{name}{k}', 'Graph Reactor', [self.cases[i] for i in idx], extra='\n'.join(head + used), shard=len(idx))
+            return ok, [idx[j] for j in failing], log
+        ok_all, failing, logs = True, [], []
+        with cf.ThreadPoolExecutor(max_workers=4) as ex:
+            for ok, fl, log in ex.map(one, range(len(chunks))):
+                ok_all = ok_all and ok
+                failing.extend(fl)
+                if log:
+                    logs.append(log)
+        return ok_all, sorted(failing), '\n'.join(logs)
 
 
 def bonds_of(mol):
